@@ -513,8 +513,9 @@ func c28Deep(r *vlib.Run) {
 	}
 	// Resource attacks: tiny inputs with astronomically large exponents. (Observed
 	// but not listed because they take minutes without dying: 1e99999999 finishes
-	// after ~50 s, 1e-999999999 runs for more than 90 s.)
-	for i, lit := range []string{"1e999999999", "x = 1e2147483647;", "1.5E+999999999", "0x1p999999999", ".1e999999999", "1e9999999"} {
+	// after ~50 s, 1e-999999999 runs for more than 90 s; 0x1p999999999 needs 125 MB
+	// and finishes in seconds without the limit.)
+	for i, lit := range []string{"1e999999999", "x = 1e2147483647;", "1.5E+999999999", ".1e999999999", "1e9999999"} {
 		all = append(all, deepCase{ID: fmt.Sprintf("c28/huge-exponent/%d", i), Literal: lit})
 	}
 	var shapes, literals []deepCase
@@ -615,10 +616,11 @@ func TestC28(t *testing.T) {
 	}
 	r := vlib.Start(t, "C28")
 	defer r.Finish()
-	r.Extra("rule", "inputs: corpus files; every-byte-offset truncations; byte/token mutants of corpus files; random bytes; token soup over the lexer's full keyword/punctuation vocabulary plus boundary literals; keyword-led statement soup; CEL-like expression soup; warning-only programs; encoding attacks (BOMs, UTF-16, invalid UTF-8, NULs); nesting shapes to depth 10 000 (quick) / 100 000 (thorough), the deep ones in an isolated grandchild process. Each evaluation = one parser.Parse call with a fresh report checked for escaping panic, ICE diagnostics, ok == (no Error/ICE diagnostic), and every snippet span (all snippets, not only the primary one) inside the parsed file object. distinct_nontrivial counts distinct non-empty input texts.")
+	r.Extra("rule", "inputs: corpus files; every-byte-offset truncations; byte/token mutants of corpus files; random bytes; token soup over the lexer's full keyword/punctuation vocabulary plus boundary literals; keyword-led statement soup; CEL-like expression soup; warning-only programs; encoding attacks (BOMs, UTF-16, invalid UTF-8, NULs); trailing unrecognised characters; nesting shapes to depth 10 000 (quick) / 100 000 (thorough), the deep ones in an isolated grandchild process; numeric literals with 9-digit exponents in an isolated grandchild with a 1.25 GiB address-space limit (inputs of the random families that contain an exponent of 7+ digits are deferred to those, class deferred:huge-exponent). Each evaluation = one parser.Parse call with a fresh report checked for escaping panic, ICE diagnostics, ok == (no Error/ICE diagnostic), and every snippet span (all snippets, not only the primary one) inside the parsed file object. distinct_nontrivial counts distinct non-empty input texts.")
 	r.Extra("assumptions", []string{
 		"every snippet of a diagnostic is read by reflection from the unexported field report.Diagnostic.snippets (pure read); if that layout changes the run is inconclusive",
 		"a Go fatal error in the isolated grandchild is attributed to the case whose BEGIN line was the last one printed",
+		"an out-of-memory death under the 1.25 GiB address-space limit counts as 'did not finish' only for the listed 9-digit-exponent literals, which were also observed to exhaust 2 GiB and 3 GiB limits after minutes of CPU",
 	})
 	cs, err := corpus()
 	if err != nil {
